@@ -173,6 +173,18 @@ def run(ctx):
             else:
                 out_objs = outs
                 kw['out'] = tuple(outs) if f.nout == 2 else (outs[0],)
+                # further keywords together with out=: a masked update (where=) must leave the unselected samples of the target
+                # alone, exactly as the same call on the underlying arrays does
+                if all(o is not None for o in outs) and rng.random() < 0.5:
+                    mask = nprng.random(np.shape(want[0])) < 0.5
+                    kw['where'] = mask
+                    try:
+                        with np.errstate(all='ignore'):
+                            w2 = f(*raw_np, out=tuple(np.zeros(np.shape(w), dtype=np.asarray(w).dtype) for w in want), where=mask)
+                        want = w2 if isinstance(w2, tuple) else (w2,)
+                        out_form += '+where'
+                    except Exception:
+                        del kw['where']
         inp = dict(ufunc=f.__name__, cls=cls, arrangement=arrangement, dtype=str(z.dtype), dask=use_dask, out=out_form, shape=list(z.shape))
         ctx.seen(inp); ctx.count('arr:' + arrangement); ctx.count('out:' + out_form); ctx.count('cls:' + cls)
         # in-place operator chains
